@@ -197,8 +197,10 @@ func (s *JavaFullListener) EnterInterfaceMethodDeclaration(ctx *parser.Interface
 	name := bodyDecl.Identifier().GetText()
 	typeType := bodyDecl.TypeTypeOrVoid().GetText()
 
-	if reflect.TypeOf(ctx.GetParent().GetParent().GetChild(0)).String() == "*parser.ModifierContext" {
-		common_listener.BuildAnnotationForMethod(ctx.GetParent().GetParent().GetChild(0).(*parser.ModifierContext), &currentMethod)
+	for _, child := range ctx.GetParent().GetParent().GetChildren() {
+		if modifier, ok := child.(*parser.ModifierContext); ok {
+			common_listener.BuildAnnotationForMethod(modifier, &currentMethod)
+		}
 	}
 
 	position := BuildPosition(ctx.BaseParserRuleContext, name)
@@ -310,8 +312,10 @@ func (s *JavaFullListener) EnterMethodDeclaration(ctx *parser.MethodDeclarationC
 	}
 	typeType := ctx.TypeTypeOrVoid().GetText()
 
-	if reflect.TypeOf(ctx.GetParent().GetParent().GetChild(0)).String() == "*parser.ModifierContext" {
-		common_listener.BuildAnnotationForMethod(ctx.GetParent().GetParent().GetChild(0).(*parser.ModifierContext), &currentMethod)
+	for _, child := range ctx.GetParent().GetParent().GetChildren() {
+		if modifier, ok := child.(*parser.ModifierContext); ok {
+			common_listener.BuildAnnotationForMethod(modifier, &currentMethod)
+		}
 	}
 
 	// check, before your refactor
